@@ -8,7 +8,7 @@ Design level : specs/NewInitIdeal.tla gives the meaning of an initializer *point
                sequential write pass (convert_from_object, convert_array_from_object, bit-field
                read-modify-write).  specs/MC_NewInit.tla: 16 shapes (nested, union, anonymous union,
                bit-fields, flexible byte / char16_t arrays, nested var-sized struct, arrays, char *)
-               x all well-formed initializer trees of depth <= 2 (3 in the thorough tier): the model
+               x all well-formed initializer trees of depth <= 2 / <= 2 array items (3 / 3 in the thorough tier): the model
                accepts them, never writes outside the allocation, allocates exactly
                max(sizeof, extent of the claims), produces the ideal bytes, and new-with-init equals
                new-then-assign.  Four broken variants must be rejected.
@@ -42,8 +42,9 @@ CLAUSE = {
 }
 
 
-def mc_cfg(variant, depth, shapes, invs):
-    return cfg_text("Spec", {"Variant": variant, "Depth": depth, "ShapeNames": set(shapes)}, invs)
+def mc_cfg(variant, depth, shapes, invs, kmax=2):
+    return cfg_text("Spec", {"Variant": variant, "Depth": depth, "KMax": kmax, "ShapeNames": set(shapes),
+                             "Pool": {3, 772} if kmax == 2 else {3, 772, 65535}}, invs)
 
 
 def shapes_py():
@@ -74,6 +75,14 @@ def norm(x):
     if isinstance(x, dict):
         return {k: norm(v) for k, v in x.items()}
     return x
+
+
+def without_names(r):
+    if isinstance(r, dict):
+        return {k: without_names(v) for k, v in r.items() if k != "cn"}
+    if isinstance(r, list):
+        return [without_names(x) for x in r]
+    return r
 
 
 def render(lab, t, init):
@@ -107,7 +116,7 @@ def render(lab, t, init):
 def design_level(ctx):
     depth = 2 if ctx.quick else 3
     jobs = [("MC_NewInit(16 shapes,depth<=%d)" % depth,
-             dict(module="MC_NewInit", cfg_text=mc_cfg("faithful", depth, SHAPE_NAMES, INVS), workers=6,
+             dict(module="MC_NewInit", cfg_text=mc_cfg("faithful", depth, SHAPE_NAMES, INVS, kmax=depth), workers=6,
                   timeout=3000))]
     for v in ("nozero", "noplus1", "unionall", "nodictprepass"):
         jobs.append(("sanity:" + v, dict(module="MC_NewInit", workers=2,
@@ -140,7 +149,7 @@ def replay_states(ctx, lab, recs, dot, tla_shapes):
     py = shapes_py()
     for name, t in py.items():
         lab.declare(t)
-        mine = lab.rec(t)
+        mine = without_names(lab.rec(t))
         if norm(tla_shapes[name]["t"]) != mine or tla_shapes[name]["isptr"] != (not isinstance(t, mn.Arr)):
             raise core.MachineryError("shape %s of MC_NewInit.tla does not have the layout cffi reports:\n%r\n%r" % (
                 name, tla_shapes[name]["t"], mine))
@@ -197,7 +206,7 @@ def judge(ctx, recs, report=True):
             if report:
                 rec = recs[i]
                 ctx.violation("%s:%s" % (clause, rec["desc"]), CLAUSE.get(clause, clause),
-                              {"cdecl": rec["cdecl"], "record": mn.strip(rec)})
+                              {"cdecl": rec["cdecl"], "how": rec.get("how"), "record": mn.strip(rec)})
     ctx.validated(len(recs))
     return nbad, diverge
 
@@ -252,11 +261,24 @@ def run(ctx):
 
 
 def replay(ctx, obj):
-    # the stored record carries the observed bytes; re-validate it (the type was random: not re-generated)
-    rec = dict(obj["replay"]["record"], cdecl=obj["replay"]["cdecl"], desc=obj["key"].split(":", 1)[1])
+    """declare the recorded C types again, rebuild the Python initializer from the recorded tree, execute the
+    construction three ways on the current tree and judge the new record"""
+    old = obj["replay"]
+    desc = obj["key"].split(":", 1)[1]
     ctx.cov["states"] = ctx.cov["transitions"] = 1
+    rec0 = old["record"]
+    if old.get("how"):
+        lab = mn.Lab(ctx.rng)
+        if old["how"]["cdef"]:
+            lab.ffi.cdef(old["how"]["cdef"])
+        init = rec0["init"]
+        pyinit = None if init["k"] == "none" else mn.render_record(lab.ffi, lab.keep, rec0["T"], init)
+        rec = lab.run_record(rec0["T"], old["how"], pyinit, init, desc)
+        what = "re-executed"
+    else:
+        rec, what = dict(rec0, cdecl=old["cdecl"], desc=desc), "re-validated recorded"
     nbad, _d = judge(ctx, [rec])
-    print("re-validated recorded construction %s: %s" % (rec["cdecl"], "rejected by the ideal" if nbad else "accepted"))
+    print("%s construction %s: %s" % (what, old["cdecl"], "rejected by the ideal" if nbad else "accepted"))
 
 
 def selftest(ctx):
